@@ -134,6 +134,11 @@ type bertCase struct {
 	Max  uint32 `json:"max"`  // maximum message size, >= 1152
 	Body int    `json:"body"` // body length
 	Dir  string `json:"dir"`  // "up": BlockWise.Do (Block1); "down": BlockWise.Handle of a GET (Block2)
+	// Prev > 0: the same BlockWise has carried out a BERT operation (direction PrevDir, a body of
+	// several blocks) with this other maximum message size before; Do, WriteMessage and Handle take
+	// the maximum message size per call
+	Prev    uint32 `json:"prev,omitempty"`
+	PrevDir string `json:"prevDir,omitempty"`
 }
 
 type poolClient struct{ p *pool.Pool }
@@ -151,9 +156,42 @@ func body(n int) []byte {
 	return b
 }
 
+// bertFirstBlock runs one BERT operation on bw and returns the first block it produced.
+func bertFirstBlock(bw *blockwise.BlockWise[poolClient], cc poolClient, dir string, max uint32, full []byte, tok byte) (gotBody []byte, blockVal uint32, errOpt error) {
+	switch dir {
+	case "up":
+		req := cc.AcquireMessage(context.Background())
+		req.SetCode(codes.POST)
+		req.SetToken(message.Token{1, 2, 3, tok})
+		req.MustSetPath("/x")
+		req.SetBody(bytes.NewReader(full))
+		_, _ = bw.Do(req, blockwise.SZXBERT, max, func(r *pool.Message) (*pool.Message, error) {
+			gotBody, _ = r.ReadBody()
+			blockVal, errOpt = r.GetOptionUint32(message.Block1)
+			return nil, fmt.Errorf("stop")
+		})
+	case "down":
+		req := cc.AcquireMessage(context.Background())
+		req.SetCode(codes.GET)
+		req.SetToken(message.Token{9, 8, tok})
+		req.MustSetPath("/x")
+		w := responsewriter.New(cc.AcquireMessage(context.Background()), cc)
+		bw.Handle(w, req, blockwise.SZXBERT, max, func(w *responsewriter.ResponseWriter[poolClient], r *pool.Message) {
+			_ = w.SetResponse(codes.Content, message.AppOctets, bytes.NewReader(full))
+			w.Message().SetToken(r.Token()) // what the connection does for every response
+		})
+		gotBody, _ = w.Message().ReadBody()
+		blockVal, errOpt = w.Message().GetOptionUint32(message.Block2)
+	}
+	return gotBody, blockVal, errOpt
+}
+
 func execBert(c bertCase) *evid.Failure {
 	cc := poolClient{pool.New(8, 2048)}
 	bw := blockwise.New(cc, time.Minute, func(error) {}, nil)
+	if c.Prev > 0 {
+		_, _, _ = bertFirstBlock(bw, cc, c.PrevDir, c.Prev, body(2*int(c.Prev/1024*1024)+3), 1)
+	}
 	full := body(c.Body)
 	unit := int64(c.Max) / 1024 * 1024
 	wantLen := int64(c.Body)
@@ -161,21 +199,9 @@ func execBert(c bertCase) *evid.Failure {
 	if wantLen > unit {
 		wantLen, wantMore = unit, true
 	}
-	var gotBody []byte
-	var blockVal uint32
-	var errOpt error
+	gotBody, blockVal, errOpt := bertFirstBlock(bw, cc, c.Dir, c.Max, full, 2)
 	switch c.Dir {
 	case "up":
-		req := cc.AcquireMessage(context.Background())
-		req.SetCode(codes.POST)
-		req.SetToken(message.Token{1, 2, 3, 4})
-		req.MustSetPath("/x")
-		req.SetBody(bytes.NewReader(full))
-		_, _ = bw.Do(req, blockwise.SZXBERT, c.Max, func(r *pool.Message) (*pool.Message, error) {
-			gotBody, _ = r.ReadBody()
-			blockVal, errOpt = r.GetOptionUint32(message.Block1)
-			return nil, fmt.Errorf("stop")
-		})
 		if int64(c.Body) <= 1024 {
 			// fits in one 1024-byte unit: sent as it is, no Block1 required
 			if !bytes.Equal(gotBody, full) {
@@ -184,16 +210,6 @@ func execBert(c bertCase) *evid.Failure {
 			return nil
 		}
 	case "down":
-		req := cc.AcquireMessage(context.Background())
-		req.SetCode(codes.GET)
-		req.SetToken(message.Token{9, 8, 7})
-		req.MustSetPath("/x")
-		w := responsewriter.New(cc.AcquireMessage(context.Background()), cc)
-		bw.Handle(w, req, blockwise.SZXBERT, c.Max, func(w *responsewriter.ResponseWriter[poolClient], r *pool.Message) {
-			_ = w.SetResponse(codes.Content, message.AppOctets, bytes.NewReader(full))
-		})
-		gotBody, _ = w.Message().ReadBody()
-		blockVal, errOpt = w.Message().GetOptionUint32(message.Block2)
 		if int64(c.Body) < 1024 {
 			if !bytes.Equal(gotBody, full) {
 				return evid.Failf("bert/down-small-body", c, "body of %d bytes not passed through unchanged (got %d bytes)", c.Body, len(gotBody))
@@ -393,7 +409,7 @@ func TestCheck(t *testing.T) {
 							if b < 1 || (m < 1152 && b <= 1024) {
 								continue
 							}
-							c := bertCase{m, b, dir}
+							c := bertCase{Max: m, Body: b, Dir: dir}
 							if f := evid.SafeExec("bert", execBert, c); f != nil {
 								r.Fail(f)
 								return
@@ -403,18 +419,37 @@ func TestCheck(t *testing.T) {
 								r.AddDistinct(1)
 							}
 						}
+						// the same engine after a BERT operation with another maximum message size
+						if m >= 1152 {
+							for _, prev := range []uint32{1152, 5*1024 + 7, 65536 + 500} {
+								if prev/1024 == m/1024 {
+									continue
+								}
+								for _, pd := range []string{"up", "down"} {
+									c := bertCase{Max: m, Body: 2*unit + 3, Dir: dir, Prev: prev, PrevDir: pd}
+									if f := evid.SafeExec("bert", execBert, c); f != nil {
+										r.Fail(f)
+										return
+									}
+									r.Eval(1)
+									r.AddDistinct(1)
+									r.Class("bert/after-another-maximum-message-size", 1)
+								}
+							}
+						}
 					}
 				}
 			}()
 		}
 		wg.Wait()
 		r.Class("bert/max-message-sizes", int64(len(maxes)))
-		r.Sample("bert", bertCase{1152, 3000, "up"})
-		r.Sample("bert", bertCase{65536 + 500, 200000, "down"})
+		r.Sample("bert", bertCase{Max: 1152, Body: 3000, Dir: "up"})
+		r.Sample("bert", bertCase{Max: 65536 + 500, Body: 200000, Dir: "down"})
+		r.Sample("bert", bertCase{Max: 2048, Body: 4099, Dir: "up", Prev: 65536 + 500, PrevDir: "down"})
 	}}
 	r.SetExhaustive()
 	r.Main(evid.Meta{
-		Rule:        "exhaustive enumeration: every 24-bit option value (every 32-bit decoder input in the thorough tier) through DecodeBlockOption, every (szx 0-7, num < 2^20, more) triple and a grid of out-of-domain arguments through EncodeBlockOption, SZX.Size for 0-255, first BERT block for max message sizes 0-70000 (below 1152, where RFC 8323 does not allow BERT, only the bound: a multiple of 1024 not above the maximum) through BlockWise.Do/Handle; oracle = specification functions written from RFC 7959 2.2; non-trivial = block number >= 2^16 or at a domain edge / out-of-domain argument / BERT body larger than one block; all enumerated cases are distinct by construction",
+		Rule:        "exhaustive enumeration: every 24-bit option value (every 32-bit decoder input in the thorough tier) through DecodeBlockOption, every (szx 0-7, num < 2^20, more) triple and a grid of out-of-domain arguments through EncodeBlockOption, SZX.Size for 0-255, first BERT block for max message sizes 0-70000 (below 1152, where RFC 8323 does not allow BERT, only the bound: a multiple of 1024 not above the maximum) through BlockWise.Do/Handle, on a fresh engine and on one that has carried out a BERT operation with another maximum message size before; oracle = specification functions written from RFC 7959 2.2; non-trivial = block number >= 2^16 or at a domain edge / out-of-domain argument / BERT body larger than one block; all enumerated cases are distinct by construction",
 		Assumptions: []string{"the specification functions in c19_test.go transcribe RFC 7959 section 2.2 correctly", "BERT sizing is observed through BlockWise.Do (upload) and BlockWise.Handle of a GET (download), first block only"},
 		Floor:       1000,
 	}, decode, encode, size, bert)
